@@ -89,8 +89,8 @@ FAILED = 1000           # caller ids of requests whose transmission is made to r
 
 # ------------------------------------------------------------------------------ scripts
 
-MSG = ("r", "e", "o")   # response / event / other non-response (Companion `_t`; MRP: message type)
-SENDS = ("s", "S")      # new request object / re-send of the object of an earlier request
+MSG = ("r", "e", "o", "x")   # "x" (MRP): a message of the type used by TYPE-matched requests; response / event / other non-response (Companion `_t`; MRP: message type)
+SENDS = ("s", "S", "T")  # "T" (MRP): a request matched by message type (generate_identifier=False); new request object / re-send of the object of an earlier request
 
 
 def tok(e):
@@ -98,7 +98,7 @@ def tok(e):
         return "s"
     if e[0] == "S":
         return "S%d" % e[1]
-    if e[0] in ("b", "F"):
+    if e[0] in ("b", "F", "T"):
         return e[0]
     if e[0] == "t":
         return "t%d" % e[1]
@@ -108,7 +108,7 @@ def tok(e):
 def untok(t):
     if t == "s":
         return ("s",)
-    if t in ("b", "F"):
+    if t in ("b", "F", "T"):
         return (t,)
     if t[0] == "S":
         return ("S", int(t[1:]))
@@ -129,9 +129,12 @@ def parse(script):
 def model_tok(transport, e):
     """the model allocates a fresh key on every send whatever object is sent (that is what the
     pinned code does); MRP does not look at the message type"""
-    if e[0] == "S":
+    if e[0] in ("S", "T"):
+        # a type-matched request is the only one of its type at a time (protocol design), so its
+        # pseudo identifier `type_N` is a fresh key like any other; on the wire that key is spelt
+        # "no identifier, message type N"
         return "s"
-    if proto(transport) == "mrp" and e[0] in ("e", "o"):
+    if proto(transport) == "mrp" and e[0] in ("e", "o", "x"):
         return tok(("r", e[1], e[2]))
     return tok(e)
 
@@ -258,6 +261,8 @@ def uvariants(transport, base, n):
     out = [("r", k) for k in [None, base + 900] + own]
     if proto(transport) == "mrp":          # the type is not looked at: collisions only
         out += [("e", k) for k in own]
+        # identifier-carrying messages of the type a TYPE-matched request waits for
+        out += [("x", k) for k in [base + 900] + own]
     if transport == "companion":
         out += [("e", k) for k in [None, base + 900] + own] + [("o", k) for k in [None] + own[:1]]
     return out
@@ -308,6 +313,19 @@ def interleavings2(transport, base):
                         else:
                             evs.append((uv[0], uv[1], 100))
                     out.append(evs)
+                    if proto(transport) == "mrp" and not rs and (uv is None or uv[0] == "x"):
+                        # request 0 / request 1 matched by message TYPE instead of by identifier,
+                        # next to an identifier-matched one
+                        for which in (0, 1):
+                            seen = -1
+                            tv = []
+                            for e in evs:
+                                if e[0] == "s":
+                                    seen += 1
+                                    tv.append(("T",) if seen == which else e)
+                                else:
+                                    tv.append(e)
+                            out.append(tv)
                     if uv is None and not rs:
                         # a request whose transmission raises, at every position
                         for i in range(len(evs) + 1):
@@ -414,6 +432,8 @@ def random_script(transport, base, rng, nmax=5, maxlen=18):
         if c == "s":
             if keys and proto(transport) in ("mrp", "companion") and rng.chance(0.3):
                 evs.append(("S", rng.randrange(len(keys))))   # same request object again
+            elif proto(transport) == "mrp" and ("T",) not in evs and rng.chance(0.2):
+                evs.append(("T",))                            # matched by message type (one at a time)
             else:
                 evs.append(("s",))
             keys.append(nkey)
@@ -469,8 +489,8 @@ def is_perm_script(transport, base, evs):
 
 # ------------------------------------------------------------------------------ subscriptions
 
-DEFAULT_SUBS = "0.0.a,1.0.a,2.0.a,0.2.a,1.2.a,2.2.a"
-NTYPES = 3
+DEFAULT_SUBS = "0.0.a,1.0.a,2.0.a,3.0.a,0.2.a,1.2.a,2.2.a,3.2.a"
+NTYPES = 4
 # callables: 0 = plain function (the unfiltered witness), 1 = plain function, 2 = coroutine
 # function, 3 = bound method, 4 = bound coroutine method (a fresh bound-method object is made for
 # every listen_to call: equal and hash-equal, not identical)
@@ -646,11 +666,11 @@ class MrpAdapter:
             listener = None
 
             def send(self, message):
-                adapter.keys.append(message.identifier)
+                ident = adapter.wire_identifier(message)
                 if adapter.fail_next:
                     adapter.fail_next = 0
                     raise SendFault("connection.send raises")
-                adapter.obs.add("snt", adapter.nsent, adapter.mkey(message.identifier))
+                adapter.obs.add("snt", adapter.nsent, adapter.mkey(ident))
                 adapter.nsent += 1
 
             def close(self):
@@ -661,11 +681,12 @@ class MrpAdapter:
 
         self.prot = mp.MrpProtocol(self.make_connection(Conn), None, None, None)
         self.prot._state = mp.ProtocolState.READY
-        self.types = [protobuf.GENERIC_MESSAGE, protobuf.SET_STATE_MESSAGE, protobuf.VOLUME_DID_CHANGE_MESSAGE]
+        self.types = [protobuf.GENERIC_MESSAGE, protobuf.SET_STATE_MESSAGE, protobuf.VOLUME_DID_CHANGE_MESSAGE,
+                      protobuf.PLAYBACK_QUEUE_REQUEST_MESSAGE]
         self.subs = parse_subs(subs)
         self.subs_text = subs
         self.callables = Callables(lambda lid, message: adapter.obs.add(
-            "dsp", lid, adapter.mkey(message.identifier), adapter.payload(message)), split_subs(subs)[1])
+            "dsp", lid, adapter.message_key(message), adapter.payload(message)), split_subs(subs)[1])
         for ty, lid, f in self.subs:
             if f == "a":
                 self.prot.listen_to(self.types[ty], self.callables.get(lid))
@@ -681,9 +702,24 @@ class MrpAdapter:
 
     def payload(self, message):
         try:
-            return int(message.uniqueIdentifier)
+            return int(message.uniqueIdentifier.split("-")[0])
         except ValueError:
             return -1
+
+    def wire_identifier(self, message):
+        """what identifies this transmission: its identifier, or for a type-matched request the
+        pseudo identifier (spelt "no identifier + message type" on the wire)"""
+        ident = message.identifier or "TYPEKEY-%d-%d" % (message.type, len(self.keys))
+        self.keys.append(ident)
+        return ident
+
+    def message_key(self, message):
+        """the key a received message carries: its identifier, else (message of the type a
+        type-matched request was sent for) that request's pseudo identifier"""
+        if message.identifier:
+            return self.mkey(message.identifier)
+        mine = [k for k in self.keys if k.startswith("TYPEKEY-%d-" % message.type)]
+        return self.mkey(mine[-1]) if mine else None
 
     def mkey(self, identifier):
         if not identifier:
@@ -702,6 +738,12 @@ class MrpAdapter:
 
     async def request(self, r, timeout, obj=None):
         # obj = j: the very ProtocolMessage object of request j is sent again (as the heartbeat does)
+        if obj == "T":
+            # matched by message type, as the pairing / verify procedures do
+            msg = self.messages.create(self.types[3])
+            self.objects[r] = msg
+            got = await self.prot.send_and_receive(msg, generate_identifier=False, timeout=timeout)
+            return self.message_key(got), self.payload(got)
         msg = self.objects[obj] if obj is not None else self.messages.create(self.protobuf.GENERIC_MESSAGE)
         self.objects[r] = msg
         got = await self.prot.send_and_receive(msg, timeout=timeout)
@@ -712,9 +754,13 @@ class MrpAdapter:
 
     def build(self, kind, k, v):
         ti = MSG.index(kind)            # the message type; MRP matching does not look at it
+        ident = self.real(k)
+        if ident and ident.startswith("TYPEKEY-"):
+            ti, ident = 3, None         # the answer to a type-matched request carries no identifier
         self.type_of[v] = ti
-        msg = self.messages.create(self.types[ti], identifier=self.real(k))
-        msg.uniqueIdentifier = str(v)
+        msg = self.messages.create(self.types[ti], identifier=ident)
+        # real messages are never shorter than 40 bytes (decode_protobufs relies on that)
+        msg.uniqueIdentifier = "%d-%s" % (v, "0" * 36)
         return msg
 
     def recv(self, kind, k, v):
@@ -743,11 +789,11 @@ class TunnelAdapter(MrpAdapter):
                 return                      # replies to the device's own frames
             payload = channels.DataStreamChannel.decode_payload(message.payload)
             for pb in channels.DataStreamChannel.decode_protobufs(payload["params"]["data"]):
-                adapter.keys.append(pb.identifier)
+                ident = adapter.wire_identifier(pb)
                 if adapter.fail_next:
                     adapter.fail_next = 0
                     raise SendFault("data channel send raises")
-                adapter.obs.add("snt", adapter.nsent, adapter.mkey(pb.identifier))
+                adapter.obs.add("snt", adapter.nsent, adapter.mkey(ident))
                 adapter.nsent += 1
 
         self.channel.send = send
@@ -1072,7 +1118,7 @@ class Sess:
                 ad.fail_next = 1 + len(ftasks) % 2     # alternate the place of the fault
                 ftasks.append(asyncio.ensure_future(self.failing_caller(FAILED + len(ftasks))))
             elif e[0] in SENDS:
-                obj = e[1] if e[0] == "S" and e[1] < len(tasks) else None
+                obj = e[1] if e[0] == "S" and e[1] < len(tasks) else ("T" if e[0] == "T" else None)
                 tasks.append(asyncio.ensure_future(self.caller(len(tasks), obj)))
             elif e[0] == "b":
                 ad.burn()
